@@ -208,7 +208,7 @@ macro_rules! structured_site {
     }};
 }
 
-fn expect_fmt<T: fmt::Display + fmt::Debug + ?Sized>(x: &T, kind: Kind, mode: Mode) -> Expect {
+pub(crate) fn expect_fmt<T: fmt::Display + fmt::Debug + ?Sized>(x: &T, kind: Kind, mode: Mode) -> Expect {
     let mut e = Expect::new("v", kind);
     match mode {
         Mode::Default | Mode::Display | Mode::DisplayI => e.display = Some(format!("{x}")),
@@ -218,15 +218,15 @@ fn expect_fmt<T: fmt::Display + fmt::Debug + ?Sized>(x: &T, kind: Kind, mode: Mo
     e
 }
 
-fn int_typed_i(v: i128, ty: IntTy) -> Option<Typed> {
+pub(crate) fn int_typed_i(v: i128, ty: IntTy) -> Option<Typed> {
     Some(Typed::Int(Big::i(v), ty))
 }
 
-fn int_typed_u(v: u128, ty: IntTy) -> Option<Typed> {
+pub(crate) fn int_typed_u(v: u128, ty: IntTy) -> Option<Typed> {
     Some(Typed::Int(Big::u(v), ty))
 }
 
-fn str_expect(s: &str, mode: Mode, key: &'static str) -> Expect {
+pub(crate) fn str_expect(s: &str, mode: Mode, key: &'static str) -> Expect {
     let mut e = expect_prim(&orig(s), Kind::Str, Some(Typed::Str(s.to_string())), mode, true);
     e.key = key;
     if let Some((alt, _)) = &mut e.alt {
@@ -565,6 +565,16 @@ fn check_emit(case: &Case, cx: &mut Cx) -> Res {
 /// The oracle: run the case's value through its call site and every read path.
 pub fn check(case: &Case, cx: &mut Cx) -> Res {
     classify(case, cx);
+    if case.dbg_macro {
+        cx.class("site:dbg-macro");
+        cx.class_if(case.mode != Mode::Default, "site:dbg-macro-with-attribute");
+        cx.class_if(case.mode == Mode::Default, "site:dbg-macro-no-attribute");
+        return crate::dbg::check_dbg(case, cx);
+    }
+    if case.stacked.is_some() {
+        cx.class("site:stacked-attributes");
+        return crate::dbg::check_stacked(case, cx);
+    }
     if case.emit_macro {
         cx.class("site:emit-macro");
         return check_emit(case, cx);
